@@ -1008,6 +1008,20 @@ def check_C10(run):
             if replayed or (second_reply and second_reply == first_reply) or rc == 'timeout':
                 run.violation(dict(kind='oracle-failed-on-implementation', oracle='frames recorded from one session are not accepted on another connection to the same doer (a frame is bound to its position in its session); no key/nonce pair is used twice',
                                    layer='L4', second_connection=second, replay_executed=replayed, same_reply_bytes=bool(second_reply) and second_reply == first_reply, doer_exit=rc))
+        # ---- two links of one boss (both doers remote): their nonce counters start at the same values, so the keys must differ
+        from . import l4 as _l4
+        sb2 = _l4.Sandbox(); sb2.place_remote('same')
+        try:
+            os.makedirs(sb2.dir + '/src'); open(sb2.dir + '/src/f', 'w').write('x')
+            klog = os.path.join(sb2.dir, 'keys.log')
+            r = _l4.run_cli(['localhost:' + sb2.dir + '/src/', 'localhost:' + sb2.dir + '/dst/', '--deploy', 'error'], env=sb2.env({'FAKE_KEY_LOG': klog}), timeout=60)
+            ks = [l.strip() for l in open(klog)] if os.path.exists(klog) else []
+            run.case(('two-links-one-boss', len(ks)), True, sample=dict(layer='L4', what='keys of the two links of one run', keys=len(ks), distinct=len(set(ks)), rc=r['rc'])); run.count('two-links-one-boss')
+            if len(ks) != 2 or len(set(ks)) != 2 or r['rc'] != 0:
+                run.violation(dict(kind='oracle-failed-on-implementation', oracle='no two frames are sealed under the same key and nonce: the two links of one boss (same nonce positions) use different keys',
+                                   layer='L4', keys_seen=len(ks), distinct=len(set(ks)), rc=r['rc'], stderr=r['err'][-400:]))
+        finally:
+            sb2.close()
     finally:
         shutil.rmtree(d, ignore_errors=True)
     run.cov['trusted_base'] = C.GLOBAL_TRUST + ['AES-128-GCM is an ideal AEAD (correctness, ciphertext integrity, nonce binding): a computational assumption, stated as the laws of the AEAD parameter (a toy instance shows they are satisfiable)',
@@ -1125,6 +1139,18 @@ def check_C15(run):
                     run.violation(dict(kind='correspondence-broken', correspondence='L4/setup_comms', remote_state=state, announced_version=announced, deploy=depword[dep], answer_deploy=ans,
                                        impl=got, model=want, fake_log=log), no_input=True)
         run.cov['disagreements_checked'] += len(configs)
+        # ---- a newly generated key for every doer launch: both doers remote in one run, twice: four launches, four different keys
+        sb.place_remote('same')
+        klog = os.path.join(sb.dir, 'keys.log')
+        for _ in range(2):
+            shutil.rmtree(sb.dir + '/dst', ignore_errors=True)
+            r = l4.run_cli(['localhost:' + sb.dir + '/src/', 'localhost:' + sb.dir + '/dst/', '--deploy', 'error'], env=sb.env({'FAKE_KEY_LOG': klog}), timeout=60)
+        keys_seen = [l.strip() for l in open(klog)] if os.path.exists(klog) else []
+        run.case(('key-per-launch', len(keys_seen)), True, sample=dict(layer='L4', what='keys written to the doers of two runs with both sides remote', launches=len(keys_seen), distinct=len(set(keys_seen)), rc=r['rc']))
+        run.count('key-per-launch', len(keys_seen)); run.cov['traces_validated_against_impl'] += 1
+        if len(keys_seen) != 4 or len(set(keys_seen)) != 4 or r['rc'] != 0 or any(len(k_) > 32 or not k_ or any(c_ not in '0123456789abcdef' for c_ in k_) for k_ in keys_seen):
+            run.violation(dict(kind='oracle-failed-on-implementation', oracle='every doer launch gets a newly generated key (two runs with both doers remote: four launches, four distinct keys of at most 32 hex digits)',
+                               layer='L4', launches=len(keys_seen), distinct_keys=len(set(keys_seen)), same_key_twice=len(set(keys_seen)) < len(keys_seen), rc=r['rc'], stderr=r['err'][-500:]))
         # ---- every causally possible interleaving of the four handshake lines (stdout-started before both completed lines; per-stream
         # order), with unrelated ssh output lines in between: the launch must succeed.  A relay in the fake ssh holds the real doer's
         # lines back and releases them in the given order, 60 ms apart.
